@@ -1,6 +1,6 @@
 (* C02: concrete tasks on which EVERY premise of the headline theorems is discharged (non-vacuity,
    audit A1 / cross-cutting observation C.1), and the regression witness of finding F17 (audit A4;
-   repaired by /repo <COMMIT-F17>): an output predicate declared in the user guide that does not occur in
+   repaired by /repo 70e6ace): an output predicate declared in the user guide that does not occur in
    one program, verified in one direction only - the program side now carries the empty completed
    definition and the task IS refuted. *)
 From Coq Require Import List Ascii String ZArith NArith Bool Lia Classical_Prop.
@@ -69,7 +69,7 @@ Qed.
 (* ===== t17 (finding F17): specification  out :- in.  out2 :- in.     program  out :- in.
          input: in/0.  output: out/0.  output: out2/0.   direction FORWARD.
          The program never produces out2, the specification does whenever in holds.  Before
-         /repo <COMMIT-F17> the only emitted problem had the conjecture out <-> in, which is among its
+         /repo 70e6ace the only emitted problem had the conjecture out <-> in, which is among its
          axioms; now a second problem has the conjecture out2 <-> #false. ===== *)
 Definition L17 : program := [ r0 "out" [p0 "in"]; r0 "out2" [p0 "in"] ].
 Definition R17 : program := [ r0 "out" [p0 "in"] ].
@@ -92,7 +92,7 @@ Lemma t17_no_clash :
 Proof. apply task_no_clashb_spec. vm_compute. reflexivity. Qed.
 Lemma t17_outputs_missing : ~ outputs_occur t17.
 Proof. intros H. apply outputs_occurb_spec in H. vm_compute in H. discriminate. Qed.
-(* since /repo <COMMIT-F17> the program side carries  out2 <-> #false : the second forward problem has it
+(* since /repo 70e6ace the program side carries  out2 <-> #false : the second forward problem has it
    as conjecture and M17 refutes it *)
 Lemma t17_right_has_empty_definition :
   In (FBin CIff (FAtomic (AAtom "out2" [])) (FAtomic AFalse)) (map an_formula rgt17).
